@@ -41,6 +41,9 @@ def val? : Sexp → Option LvlVal
   | .list [.atom "text", s] => s.str?.map LvlVal.text
   | .list [.atom "int", n] => n.int?.map LvlVal.int
   | .list [.atom "bool", b] => b.bool?.map LvlVal.bool
+  | .list [.atom "otyped", l] => (level? l).map LvlVal.ownedTyped
+  | .list [.atom "display", s] => s.str?.map LvlVal.display
+  | .list [.atom "otext", s] => s.str?.map LvlVal.ownedText
   | _ => none
 
 def prop? : Sexp → Option (String × LvlVal)
@@ -61,6 +64,9 @@ def lvlSig (props : List (String × LvlVal)) : String :=
   | some (.text s) => if (parseLevel s).isSome then "text-ok" else "text-bad"
   | some (.int _) => "int"
   | some (.bool _) => "bool"
+  | some (.ownedTyped _) => "owned-typed"
+  | some (.display s) => if (parseLevel s).isSome then "display-ok" else "display-bad"
+  | some (.ownedText s) => if (parseLevel s).isSome then "otext-ok" else "otext-bad"
 
 def showLevel : Option Level → String
   | none => "none"
